@@ -71,6 +71,18 @@ try:
                 key = parts[0][:-3].replace("/", ".") + "." + "::".join(parts[1:]) if len(parts) > 2 else None
                 if key in stable:
                     regress.append(key)
+        # order-dependent stochastic tests can flip in a subset run: re-run each suspect on its own
+        real = []
+        for key in regress:
+            mod, rest = key.rsplit(".", 1)[0], key
+            parts = key.split("::")
+            path = parts[0].rsplit(".", 1)[0].replace(".", "/") + ".py"
+            tid = path + "::" + parts[0].rsplit(".", 1)[1] + "::" + "::".join(parts[1:])
+            t2 = sh("/venv/bin/python", "-m", "pytest", "-q", "-p", "no:cacheprovider", "--timeout=900", tid, cwd=wt, timeout=1800)
+            if " passed" not in (t2.stdout.strip().splitlines() or [""])[-1]:
+                real.append(key)
+        res["subset_flaky"] = [k for k in regress if k not in real]
+        regress = real
         res["stable_pass_regressions"] = regress
         res["confirmed"] = bool(res["imports"] and res["demo_without_patch"][0] == 0 and res["demo_with_patch"][0] != 0 and not regress and "passed" in tail)
     else:
